@@ -265,6 +265,34 @@ def gen_unwrap(quick):
     return cases, sums
 
 
+def discriminant_unwrap_cases():
+    """enums whose 3 variants mix automatic and hand-written discriminants (each automatic or from {0, 1, 2, 5}): #unwrap with the
+    held variant passes and yields the payload, with any other variant it must abort"""
+    cases = []
+    k = 0
+    names = "ABC"
+    for pat in itertools.product((None, 0, 1, 2, 5), repeat=3):
+        explicit = [d for d in pat if d is not None]
+        if len(explicit) != len(set(explicit)) or not explicit:
+            continue
+        k += 1
+        en = f"DU{k}"
+        decl = f"{en} :: enum {{ " + ", ".join(f"{names[i]}: i64" + (f" | {pat[i]}" if pat[i] is not None else "") for i in range(3)) + " };"
+        for held in range(3):
+            for req in range(3):
+                body = (f"e : {en} = {en}.{names[held]}.({100 + held}); pr(-1);\n"
+                        f"x := #unwrap(e, {en}.{names[req]}); pr(i64.(x)); pr(-2);")
+                pat_s = ",".join("_" if d is None else str(d) for d in pat)
+                key = f"unwrap-discriminants/{pat_s}/{names[held]}/{names[req]}"
+                if held == req:
+                    cases.append(PCase(key, body, fmt_leaves([-1, 100 + held, -2]), decls=decl))
+                else:
+                    cases.append(PCase(key, body, fmt_leaves([-1]), decls=decl, fault="#unwrap", never="-2 "))
+    for c in cases:
+        c.meta_decl, c.decls = c.decls, ""
+    return cases
+
+
 def requests(T):
     if isinstance(T, Enum):
         return [("variant", n) for n, _, _ in T.variants]
@@ -396,10 +424,16 @@ def run(tier, seed):
         extra.append(f"WU{wrap_name(T)} :: struct {{ g: u8, e: {T.spell()}, t: u8 }};")
     extra.append("WP :: struct { g: u8, op: ?^i32, t: u8 };")
     prelude = BASE + tyir.all_decls(decl_tys) + "\n" + "\n".join(extra) + "\n"
+    du_cases = discriminant_unwrap_cases()
     pcases = [c for c in idx_cases + uw_cases if isinstance(c, PCase)]
     rcases = [c for c in idx_cases + uw_cases if isinstance(c, Case)]
     dr = dispatch.DispatchRunner("c10", prelude, group=150)
     mism = dr.run(pcases)
+    # the enum declarations of this family are shared by the cases of a pattern, so they go into the prelude of their own runner
+    du_prelude = prelude + "\n".join(sorted({c.meta_decl for c in du_cases})) + "\n"
+    dr2 = dispatch.DispatchRunner("c10du", du_prelude, group=150)
+    mism += dr2.run(du_cases)
+    pcases = pcases + du_cases
     rr = core.Runner("c10r", batch_size=100, prelude=prelude)
     mism += rr.run(rcases)
     faults = sum(1 for c in pcases if c.fault)
@@ -417,8 +451,8 @@ def run(tier, seed):
                              "literal_indexes": "0..n+1", "big_arrays": "[100]T / [20000]T / [6][16]i32 with u8, u16, u32 indexes whose product with the stride exceeds the index type", "sum_types": len(sums) + 1, "unwrap_placements": 5,
                              "runtime_cases": len(pcases), "expected_faults": faults, "compile_time_rejections": len(rcases)},
         "distinct_outcomes": len(dr.outcomes),
-        "compilations": dr.compiles + rr.compiles,
-        "executions": dr.executions,
+        "compilations": dr.compiles + dr2.compiles + rr.compiles,
+        "executions": dr.executions + dr2.executions,
         "samples": [{"case": c.key, "body": c.body[:400], "expected": c.expected, "fault": c.fault} for c in (pcases[0], pcases[len(pcases) // 2], pcases[-1])],
     }
     core.finish("C10", tier, seed, started, coverage, mism, explains, assumptions=[
